@@ -5,10 +5,12 @@ import (
 	"encoding/hex"
 	"encoding/json"
 	"fmt"
+	"strings"
 
 	"github.com/lesismal/nbio/nbhttp/websocket"
 
 	"verif/seqx/wsgen"
+	"verif/track"
 	"verif/vkit"
 	"verif/vshim/vrand"
 )
@@ -24,21 +26,25 @@ import (
 //	  Engine.SyncCall) or executor mode (Conn.Execute; also an executor that refuses every job) x
 //	  handler set {OnMessage, OnMessage+OnDataFrame, OnDataFrame} x 4 allocator variants
 //	  (exact, pooled, stale, exact+moving Append);
-//	segmentation: one piece and every single cut; for every cut additionally CloseAndClean right
-//	  at the cut with the second piece still delivered (a read already in flight);
+//	segmentation: one piece, every single cut, byte at a time, and (wsMultiCut) three and four
+//	  reads cut at structural positions; for every segmentation additionally CloseAndClean right
+//	  at the last cut with the last piece still delivered (a read already in flight);
 //	faults: the k-th callback panics (every k), the k-th connection write fails (every k), the
 //	  connection is cleaned up right after the handler that closed it or after Parse returns.
 //
 // Sender side: WriteMessage sequences (text, binary, ping, close; compression on/off; frame
 // limit 3 so that messages fragment) with the k-th connection write failing, for every k.
 //
-// Observation points of the ownership monitor: the fake conn's Write, OnMessage, OnDataFrame.
+// Observation points of the ownership monitor: the fake conn's Write, OnMessage, OnDataFrame, and
+// after every Parse call the content oracle (wsOracle): retained cache and message against the
+// input, reported payloads and written bytes searched for the poison pattern. The read buffer
+// passed to Parse is overwritten after every call, as the engine reuses it.
 
 func init() {
 	register(wsPart)
 	registerReplay("ws-feed", wsReplay)
 	registerReplay("ws-send", wsSendReplay)
-	rules = append(rules, "[ws] every frame sequence of a fixed set (legal sequences incl. fragmented/compressed messages and interleaved control frames; each of them with a reserved bit injected at every frame position; over-limit single/fragmented/compressed messages; illegal close frames; oversized control frames) x receiver configuration (role, ReleasePayload on/off, blocking or executor mode, refusing executor, handler set, 4 allocator variants) x {one piece, every single cut, CloseAndClean at every cut} x {k-th callback panics, k-th conn write fails, cleanup after handler/after Parse}; sender: WriteMessage sequences x compression x k-th conn write fails;")
+	rules = append(rules, "[ws] every frame sequence of a fixed set (legal sequences incl. fragmented/compressed messages and interleaved control frames; each of them with a reserved bit injected at every frame position; over-limit single/fragmented/compressed messages; illegal close frames; oversized control frames) x receiver configuration (role, ReleasePayload on/off, blocking or executor mode, refusing executor, handler set, 4 allocator variants) x {one piece, every single cut, byte at a time, three and four reads (pairs / triples of structural cut positions within a window of 10 / 6 consecutive positions, under ReleasePayload on/off x {OnMessage+OnDataFrame, OnMessage}), each with CloseAndClean at the end or at the last cut} x {k-th callback panics, k-th conn write fails, cleanup after handler/after Parse}; sender: WriteMessage sequences x compression x k-th conn write fails;")
 	assumptions = append(assumptions, "[ws] callbacks copy what they keep (with ReleasePayload the payload belongs to nbio after the callback returns); after Parse fails or the implementation closed the conn the harness calls CloseAndClean once and stops feeding, except in the close-at-cut cases where the next piece is still passed to Parse")
 }
 
@@ -137,6 +143,180 @@ type wsOutcome struct {
 	writes    int
 	calls     int
 	states    int
+	// content oracle
+	tailChecks, tailDiffs int // cache compared with the input tail / differing in something that is not poison
+	msgChecks, msgDiffs   int // message under assembly compared with the frames fed / differing without poison
+	reported              int // callback payloads and connection writes searched for poison
+	reportsOff            bool
+	dangling              int
+}
+
+// wsOracle is the content oracle of the WebSocket feeds. The allocator never recycles memory and
+// overwrites a buffer with the poison byte when it is freed, so a poison byte in what the Conn
+// retains between two Parse calls (the unparsed input cache, the message under assembly) or
+// reports (callback payloads, bytes written to the connection) that is not in the input at that
+// place was read out of a freed buffer - also when no allocator call or observation point sits
+// between the Free and the read (free the cache, then copy the tail out of it).
+//
+//	cache:    always the tail of the bytes fed so far (consumed frames are removed from its front),
+//	          byte for byte either as on the wire or unmasked (a complete frame is unmasked in place)
+//	message:  after a Parse call that returned nil on an open Conn, the concatenated payloads of the
+//	          data frames of the incomplete message among the frames completely fed
+//	reports:  searched for the poison byte when it occurs neither in the (unmasked) wire nor in a
+//	          message the reference model expects
+type wsOracle struct {
+	ep     *wsgen.Endpoint
+	wire   []byte
+	plain  []byte // the wire with every payload unmasked
+	frames []wsgen.Frame
+	ends   []int // end offset of frames[i] on the wire
+	legit  bool  // the poison byte may legitimately appear in reported data
+	nEv    int
+	nWr    int
+	seen   bool
+	o      *wsOutcome
+}
+
+func newWsOracle(ep *wsgen.Endpoint, wire []byte, cfg wsgen.Cfg, o *wsOutcome) *wsOracle {
+	x := &wsOracle{ep: ep, wire: wire, plain: append([]byte{}, wire...), o: o}
+	frames, w, _ := wsgen.ParseFrames(wire) // on a structural error: the frames before it
+	for i := range frames {
+		if w == nil || i >= len(w.Starts) {
+			frames = frames[:i]
+			break
+		}
+		at := w.Starts[i] + w.Hdrs[i]
+		if at+len(frames[i].Payload) > len(wire) {
+			frames = frames[:i]
+			break
+		}
+		copy(x.plain[at:], frames[i].Payload)
+		x.ends = append(x.ends, at+len(frames[i].Payload))
+	}
+	x.frames = frames
+	x.legit = bytesHas(x.plain, track.PoisonByte) || bytesHas(wire, track.PoisonByte)
+	v := wsgen.Judge(frames, wsgen.Rules{Compression: cfg.Compress, ToServer: !cfg.Client})
+	for _, e := range v.Events {
+		x.legit = x.legit || bytesHas(e.Payload, track.PoisonByte)
+	}
+	x.legit = x.legit || bytesHas(v.OffMsg, track.PoisonByte)
+	return x
+}
+
+func bytesHas(b []byte, c byte) bool {
+	for _, x := range b {
+		if x == c {
+			return true
+		}
+	}
+	return false
+}
+
+func (x *wsOracle) poison(data []byte, where, detail string) {
+	if !x.seen { // first observation only: the later ones are its consequences
+		x.seen = true
+		x.ep.T.PoisonRead(data, where, detail)
+	}
+}
+
+// after runs after every Parse call; fed = bytes handed to Parse so far, err = what it returned.
+func (x *wsOracle) after(call, fed int, err error) {
+	t := x.ep.T
+	hc, hm := x.ep.C.VerifSeqHandles()
+	if hc != nil && !t.IsLive(hc) {
+		x.o.dangling++
+	} else if hc != nil && len(*hc) > 0 && len(*hc) <= fed {
+		cached := *hc
+		x.o.tailChecks++
+		w1, w2 := x.wire[fed-len(cached):fed], x.plain[fed-len(cached):fed]
+		poisonAt, scribble, other := -1, -1, -1
+		for i, c := range cached {
+			switch {
+			case c == w1[i] || c == w2[i]:
+			case c == track.PoisonByte:
+				if poisonAt < 0 {
+					poisonAt = i
+				}
+			case c == wsgen.ScribbleByte:
+				if scribble < 0 {
+					scribble = i
+				}
+			default:
+				other = i
+			}
+		}
+		detail := fmt.Sprintf(" after Parse call %d (%d bytes fed; cache % x, input tail % x)", call+1, fed, cached[:min(len(cached), 24)], w1[:min(len(w1), 24)])
+		if poisonAt >= 0 {
+			x.poison(cached, "Conn.bytesCached", detail)
+		}
+		if scribble >= 0 {
+			t.Note("read-buffer-retained", "read-buffer-retained use=Conn.bytesCached",
+				"the Conn's input cache changes when the caller reuses the read buffer it passed to Parse (the cache aliases memory the Conn does not own)"+detail)
+		}
+		if other >= 0 {
+			x.o.tailDiffs++
+		}
+	}
+	if hm != nil && !t.IsLive(hm) {
+		x.o.dangling++
+	} else if err == nil && !x.ep.Fake.Closed && !x.ep.Cleaned && !x.ep.Cfg.NoOnMessage {
+		var want []byte
+		for i := range x.frames {
+			if x.ends[i] > fed {
+				break
+			}
+			if f := &x.frames[i]; !f.IsControl() {
+				want = append(want, f.Payload...)
+				if f.Fin {
+					want = want[:0]
+				}
+			}
+		}
+		var got []byte
+		if hm != nil {
+			got = *hm
+		}
+		x.o.msgChecks++
+		if len(got) != len(want) {
+			x.o.msgDiffs++
+		} else {
+			for i := range got {
+				if got[i] != want[i] {
+					if got[i] == track.PoisonByte {
+						x.poison(got, "Conn.message", fmt.Sprintf(" after Parse call %d (%d bytes fed; message under assembly % x, frames fed % x)", call+1, fed, got[:min(len(got), 24)], want[:min(len(want), 24)]))
+					} else {
+						x.o.msgDiffs++
+					}
+					break
+				}
+			}
+		}
+	}
+	x.reports()
+}
+
+// reports searches what was reported since the last call.
+func (x *wsOracle) reports() {
+	if x.legit {
+		x.o.reportsOff = true
+		return
+	}
+	for ; x.nEv < len(x.ep.Events); x.nEv++ {
+		e := &x.ep.Events[x.nEv]
+		x.o.reported++
+		if bytesHas(e.Payload, track.PoisonByte) {
+			where := map[byte]string{'M': "OnMessage", 'F': "OnDataFrame", 'O': "PongHandler", 'P': "PingHandler", 'C': "CloseHandler"}[e.Kind]
+			x.poison(nil, where, fmt.Sprintf(" (%s)", e.String()))
+		}
+	}
+	if !x.ep.Cfg.Client { // a server writes unmasked frames: header bytes are never 0xDD, payloads echo the input
+		for ; x.nWr < len(x.ep.Fake.Writes); x.nWr++ {
+			x.o.reported++
+			if w := x.ep.Fake.Writes[x.nWr]; bytesHas(w, track.PoisonByte) {
+				x.poison(nil, "conn.Write", fmt.Sprintf(" (% x)", w[:min(len(w), 24)]))
+			}
+		}
+	}
 }
 
 func wsRun(in *wsInput) *wsOutcome {
@@ -144,17 +324,32 @@ func wsRun(in *wsInput) *wsOutcome {
 	cfg := in.Cfg
 	cfg.Observe = true
 	ep := wsgen.NewEndpoint(cfg)
+	ep.Scribble = true
 	o := &wsOutcome{}
-	if in.CloseCut && len(in.Seg.Cuts) == 1 {
-		c := in.Seg.Cuts[0]
-		err := ep.C.Parse(wire[:c:c])
-		ep.Clean(err)
-		_ = ep.C.Parse(wire[c:]) // a read already in flight: must be refused without touching released buffers
-		ep.C.CloseAndClean(nil)  // a second cleanup must be harmless
-		o.calls, o.states = 2, 2
-		o.panics = len(wsgen.DrainLog())
+	x := newWsOracle(ep, wire, cfg, o)
+	feed := func(w []byte, seg wsgen.Seg) *wsgen.FeedResult {
+		var his []int
+		seg.Pieces(len(w), func(lo, hi int) bool { his = append(his, hi); return true })
+		return ep.Feed(w, seg, func(call int, st websocket.VerifSeqState) string {
+			x.after(call, his[call], ep.LastErr)
+			return ""
+		})
+	}
+	if in.CloseCut && len(in.Seg.Cuts) >= 1 {
+		// the pieces before the last cut are fed as usual, then the connection is cleaned up and the
+		// last piece still arrives (a read already in flight)
+		k := len(in.Seg.Cuts) - 1
+		c := in.Seg.Cuts[k]
+		r := feed(wire[:c:c], wsgen.Seg{Kind: in.Seg.Kind, Cuts: in.Seg.Cuts[:k]})
+		if !ep.Cleaned {
+			ep.Clean(r.Err)
+		}
+		_ = ep.C.Parse(append([]byte(nil), wire[c:]...)) // must be refused without touching released buffers
+		ep.C.CloseAndClean(nil)                          // a second cleanup must be harmless
+		o.calls, o.states = r.Calls+1, r.States+1
+		o.panics = len(r.Panics) + len(wsgen.DrainLog())
 	} else {
-		r := ep.Feed(wire, in.Seg, nil)
+		r := feed(wire, in.Seg)
 		if !ep.Cleaned {
 			ep.Clean(nil) // the connection goes away at the end of every case
 		}
@@ -162,6 +357,7 @@ func wsRun(in *wsInput) *wsOutcome {
 		o.panics = len(r.Panics)
 		o.calls, o.states = r.Calls, r.States
 	}
+	x.reports()
 	for _, v := range ep.T.Violations() {
 		o.sigs = append(o.sigs, v.Sig)
 		o.descs = append(o.descs, v.Desc)
@@ -182,6 +378,16 @@ func wsAccount(p *vkit.Part, o *wsOutcome, scenario string, in interface{}, what
 	}
 	if o.failed {
 		p.Count("ws_runs_ending_in_failure", 1)
+	}
+	p.Count(fmt.Sprintf("ws_runs_with_%d_reads", min(o.calls, 5)), 1)
+	p.Count("ws_retained_cache_compared_with_input", o.tailChecks)
+	p.Count("ws_retained_cache_differs_from_input_without_poison(C12)", o.tailDiffs)
+	p.Count("ws_message_under_assembly_compared_with_frames_fed", o.msgChecks)
+	p.Count("ws_message_under_assembly_differs_without_poison(C12)", o.msgDiffs)
+	p.Count("ws_reported_payloads_and_writes_searched_for_poison", o.reported)
+	p.Count("ws_conn_keeping_a_released_buffer_pointer(not_judged)", o.dangling)
+	if o.reportsOff {
+		p.Count("ws_runs_without_report_oracle(poison_byte_in_input)", 1)
 	}
 	for i, s := range o.sigs {
 		p.Report(s, what+"\n  "+o.descs[i], scenario, in)
@@ -204,10 +410,6 @@ func wsPart(tier string, sh *vkit.Shard, p *vkit.Part) {
 	for _, s := range seqs {
 		for _, server := range []bool{true, false} {
 			for _, av := range wsAllocs {
-				// work item: one sequence, one role, one allocator variant: all configurations and segmentations
-				if !sh.Mine() {
-					continue
-				}
 				fr := append([]wsgen.Frame{}, s.frames...)
 				for i := range fr {
 					fr[i].Masked = server
@@ -216,6 +418,11 @@ func wsPart(tier string, sh *vkit.Shard, p *vkit.Part) {
 				w := wsgen.Encode(fr)
 				wireHex := hex.EncodeToString(w.Bytes)
 				n := len(w.Bytes)
+				// work item: one sequence, one role, one allocator variant: all configurations, faults,
+				// one and two reads, byte at a time
+				if !sh.Mine() {
+					continue
+				}
 				sampled := false
 				for _, rp := range []bool{false, true} {
 					for _, mode := range []string{"execute", "blocking", "execute-false"} {
@@ -274,6 +481,29 @@ func wsPart(tier string, sh *vkit.Shard, p *vkit.Part) {
 		}
 	}
 
+	// ---- three and four reads (the sequences with an injected reserved bit only in the thorough
+	// tier: they fail at the marked frame and add no cache transition before it)
+	for _, s := range seqs {
+		if strings.Contains(s.name, "/rsv2@") && !thorough {
+			continue
+		}
+		for _, server := range []bool{true, false} {
+			for _, av := range wsAllocs {
+				// work item: one sequence, one role, one allocator variant
+				if !sh.Mine() {
+					continue
+				}
+				fr := append([]wsgen.Frame{}, s.frames...)
+				for i := range fr {
+					fr[i].Masked = server
+					fr[i].Key = [4]byte{0x11, 0x22 + byte(i), 0x33, 0x44}
+				}
+				w := wsgen.Encode(fr)
+				wsMultiCut(p, s, w, hex.EncodeToString(w.Bytes), server, av, thorough)
+			}
+		}
+	}
+
 	// ---- sender side
 	type sendMsg struct {
 		Type int `json:"type"`
@@ -303,6 +533,52 @@ func wsPart(tier string, sh *vkit.Shard, p *vkit.Part) {
 							nw = o.writes
 						}
 						wsAccount(p, o, "ws-send", in, fmt.Sprintf("ws send program %d client=%v comp=%v alloc=%d move=%v fail-write@%d", pi, client, comp, av.policy, av.move, fail))
+					}
+				}
+			}
+		}
+	}
+}
+
+// wsMultiCut feeds the wire in three and four reads: the input cache is created by a read that
+// ends inside a frame, appended to by the next one, compacted when that read completes a frame and
+// leaves a tail again, appended to again ... - transitions that one cut (create, append, release)
+// and the byte-at-a-time feed (append, release) do not reach. Cut positions are the structural
+// ones (every offset inside and just after each frame header, the last two bytes of each frame,
+// the frame boundaries): every pair within a window of 10 consecutive positions and every triple
+// within 6 (thorough: 24 / 10), with the connection cleaned up at the end or right at the last
+// cut. Configurations: ReleasePayload on/off x {OnMessage+OnDataFrame, OnMessage only (thorough:
+// also OnDataFrame only)}, executor mode (thorough: blocking mode too).
+func wsMultiCut(p *vkit.Part, s wsSeq, w *wsgen.Wire, wireHex string, server bool, av allocVar, thorough bool) {
+	st := w.Structural(0)
+	pw, tw := 10, 6
+	handlers := []string{"both", "msg"}
+	modes := []string{"execute"}
+	if thorough {
+		pw, tw = 24, 10
+		handlers = []string{"both", "msg", "frame"}
+		modes = []string{"execute", "blocking"}
+	}
+	for _, rp := range []bool{false, true} {
+		for _, mode := range modes {
+			for _, h := range handlers {
+				cfg := wsgen.Cfg{Client: !server, Compress: s.comp, Level: 1, L: s.limit, Policy: av.policy, Move: av.move,
+					ReleasePayload: rp, Blocking: mode == "blocking", NoOnMessage: h == "frame", OnDataFrame: h != "msg"}
+				run := func(kind string, cuts ...int) {
+					for _, closeCut := range []bool{false, true} {
+						in := &wsInput{Name: s.name, Wire: wireHex, Cfg: cfg, Seg: wsgen.Seg{Kind: kind, Cuts: cuts}, CloseCut: closeCut}
+						wsAccount(p, wsRun(in), "ws-feed", in, in.String())
+					}
+				}
+				for i := range st {
+					for j := i + 1; j < min(len(st), i+pw); j++ {
+						run("cut2", st[i], st[j])
+					}
+					hi := min(len(st), i+tw)
+					for j := i + 1; j < hi; j++ {
+						for k := j + 1; k < hi; k++ {
+							run("cut3", st[i], st[j], st[k])
+						}
 					}
 				}
 			}
